@@ -5,6 +5,7 @@
 // ===========================================================================
 use vstd::std_specs::hash::*;
 use vstd::std_specs::cmp::*;
+use vstd::std_specs::iter::IteratorSpec;
 
 broadcast use vstd::std_specs::hash::group_hash_axioms;
 
@@ -21,6 +22,7 @@ pub assume_specification[<CharOpts as Clone>::clone](c: &CharOpts) -> (r: CharOp
 pub assume_specification[<Cursor as Clone>::clone](c: &Cursor) -> (r: Cursor) ensures r == *c;
 pub assume_specification[<Margins as Clone>::clone](c: &Margins) -> (r: Margins) ensures r == *c;
 pub assume_specification[<Charset as Clone>::clone](c: &Charset) -> (r: Charset) ensures r == *c;
+pub assume_specification[<Charset as PartialEq>::eq](a: &Charset, b: &Charset) -> (r: bool) ensures r == (*a == *b);
 
 // ---- TRUSTED: std functions vstd has no spec for -----------------------------
 pub assume_specification<T>[Option::<T>::or](a: Option<T>, b: Option<T>) -> (r: Option<T>)
@@ -591,4 +593,44 @@ pub open spec fn same_but_icon(a: Screen, b: Screen) -> bool {
     && a.margins == b.margins && a.buffer@ == b.buffer@ && a.mode@ == b.mode@ && a.title@ == b.title@
     && a.charset == b.charset && a.g0_charset == b.g0_charset
     && a.g1_charset == b.g1_charset && a.tabstops@ == b.tabstops@ && a.cursor == b.cursor && a.saved_columns == b.saved_columns
+}
+
+// ---- draw (C04) ------------------------------------------------------------------------
+/// `S.chars().map(F).collect::<String>()` with the closure passed through
+#[verifier::external_body]
+pub fn str_map_collect<F: Fn(char) -> char>(s: &str, f: F) -> (r: String)
+    requires
+        forall|i: int| 0 <= i < s@.len() ==> f.requires((#[trigger] s@[i],)),
+    ensures
+        r@.len() == s@.len(),
+        forall|i: int| 0 <= i < s@.len() ==> f.ensures((s@[i],), #[trigger] r@[i]),
+{
+    s.chars().map(f).collect::<String>()
+}
+pub uninterp spec fn nfc(s: Seq<char>) -> Seq<char>;
+/// `S.nfc().collect::<String>() + &C.to_string()`
+#[verifier::external_body]
+pub fn nfc_append(s: &String, c: char) -> (r: String)
+    ensures r@ == nfc(s@).push(c),
+{
+    unimplemented!() // real implementation: unicode_normalization::UnicodeNormalization::nfc
+}
+pub uninterp spec fn is_comb(c: char) -> bool;
+/// stand-in for unicode_normalization::char::is_combining_mark (external crate)
+#[verifier::external_body]
+pub fn is_combining_mark(c: char) -> (r: bool)
+    ensures r == is_comb(c),
+{
+    unimplemented!()
+}
+/// ASSUMPTION about the unicode-width dependency: a width is absent, 0, 1 or 2
+#[verifier::external_body]
+pub proof fn axiom_char_width_range(c: char)
+    ensures char_width(c) == None::<usize> || char_width(c) == Some(0usize) || char_width(c) == Some(1usize) || char_width(c) == Some(2usize),
+{
+}
+pub open spec fn width_of(c: char) -> int { match char_width(c) { Some(w) => w as int, None => 0 } }
+/// G0/G1 translation of one character (C20): code points above 255 pass through
+pub open spec fn xlate(cs: Charset, g0: [char; 256], g1: [char; 256], c: char) -> char {
+    if c as u32 > 255 { c } else if cs == Charset::G1 { g1@[c as int] } else { g0@[c as int] }
 }
